@@ -45,6 +45,8 @@ def compare(ctx, job, m, o, tag, failed):
         if c["frame"] == frame:
             cnt[c["node"]] = cnt.get(c["node"], 0) + 1
     ref_cnt = aux["cnt"] if isinstance(aux["cnt"], dict) else {}
+    if meta["shape"] == "oneshot":
+        ref_cnt = {n: k for n, k in meta["expect"]}
     # never more executions of any loop node than the sequential loop performs
     for n in loop_nodes(meta):
         if cnt.get(n, 0) > ref_cnt.get(n, 0):
@@ -53,7 +55,11 @@ def compare(ctx, job, m, o, tag, failed):
     for n, k in cnt.items():
         if frame == "" and k > job["prog"]["max_iter"]:
             return ctx.violation("step-bound", wit, f"{n} invoked {k} > max_iterations {job['prog']['max_iter']}")
-    if o["status"] == "completed":
+    if o["status"] == "completed" and meta["shape"] == "oneshot":
+        for n, k in meta["expect"]:
+            if cnt.get(n, 0) != k:
+                return ctx.violation("stale-decision-reused", wit, f"{n} ran {cnt.get(n, 0)} times, expected {k}")
+    elif o["status"] == "completed":
         for n in loop_nodes(meta):
             if cnt.get(n, 0) != ref_cnt.get(n, 0):
                 k = classify_stall(job, o, aux) or "iteration-count"
@@ -102,6 +108,13 @@ def make_pairs(tier, rng):
     if not thorough:
         rng.shuffle(pairs)
         pairs = pairs[:1500]
+    for dopen in (True, False):
+        for gk in ("route", "ifelse"):
+            for mode in ("sync", "async"):
+                prog, prov, meta = gen.oneshot_template(dopen, gk)
+                j = gen.job(0, prog, prov, mode=mode)
+                j["meta"] = meta
+                pairs.append((j, f"oneshot/{gk}/{'open' if dopen else 'closed'}"))
     for i, (j, _) in enumerate(pairs):
         j["id"] = i + 1
     return pairs
